@@ -44,7 +44,7 @@ def gen_case(seed, run, tier):
     maxcoef = rs.choice([1, 2, 3, 4, 6])
     enabled = set(["scale", "add", "sub"])
     for name, p in (("neg", 0.7), ("combo", 0.6), ("eliminate", 0.7), ("as_reactions", 0.4),
-                    ("eq", 0.3), ("cancel", 0.3), ("zero", 0.4), ("selfsub", 0.4)):
+                    ("eq", 0.3), ("cancel", 0.3), ("zero", 0.4), ("selfsub", 0.4), ("set_param", 0.5)):
         if rs.random() < p:
             enabled.add(name)
     nops = rs.randint(3, 25)
@@ -78,7 +78,8 @@ def gen_case(seed, run, tier):
     ops = []
     kinds = sorted(enabled)
     weights = {"scale": 5, "add": 5, "sub": 5, "neg": 2, "combo": 3, "eliminate": 3, "as_reactions": 1,
-               "eq": 1, "cancel": 1, "zero": 1, "selfsub": 1}
+               "eq": 1, "cancel": 1, "zero": 1, "selfsub": 1, "set_param": 2}
+    spare = [q for q in PRIMES + [41, 43, 47, 53, 59, 61, 67, 71] if q not in primes]
     for oid in range(nops):
         kind = rw.choices(kinds, [weights[k] for k in kinds])[0]
         ids = list(vecs)
@@ -120,7 +121,11 @@ def gen_case(seed, run, tier):
             l = abs(va * vb) // gcd(va, vb)
             res = model.add(model.scale(vecs[a], -l // va), model.scale(vecs[b], l // vb))
         elif kind == "as_reactions":
-            op.update(which=rw.choice(["kf", "kb"]), val=rw.choice([1, 3, 10, 7]))
+            op.update(which=rw.choice(["kf", "kb"]), val=rw.choice([1, 3, 10, 7]), units=(const_kind == "fraction" and rw.random() < 0.4))
+        elif kind == "set_param":
+            if not spare:
+                continue
+            op["prime"] = spare.pop(rw.randrange(len(spare)))
         elif kind in ("eq", "cancel"):
             op["b"] = b
         ops.append(op)
@@ -197,9 +202,22 @@ def execute(case):
         except Exception as ex:  # a base the constructor refuses: nothing to test
             hist.append({"op": "construct", "i": i, "outcome": "raise:" + core.exc_tag(ex)})
             continue
-        pool["b%d" % i] = [e, model.unit(i), _snap(e)]
+        pool["b%d" % i] = [e, model.unit(i), _snap(e), model.const(model.unit(i))]
 
-    def check_obj(e, cvec, opname, idx, netted, sig_extra=None):
+    def kpow(k, n):
+        return k ** int(n)
+
+    def kequal(observed, expected):
+        if ck == "symbol":
+            import sympy
+
+            try:
+                return sympy.simplify(sympy.sympify(observed) / expected) == 1
+            except Exception:
+                return False
+        return to_fraction(observed) == to_fraction(expected)
+
+    def check_obj(e, cvec, opname, idx, netted, sig_extra=None, kexp=None):
         """Full conformance of one object with its model vector."""
         sig = {"op": opname}
         sig.update(sig_extra or {})
@@ -229,13 +247,13 @@ def execute(case):
             if listed != set(exp_net):
                 viols.append(core.violation("not_netted", "cancelled species still listed after %s: %s" % (opname, sorted(listed - set(exp_net))), sig, idx))
                 bad = True
-        if not model.const_equal(e.param, cvec):
-            viols.append(core.violation("const_mismatch", "after %s: constant %s expected %s (vector %s)" % (opname, e.param, model.const(cvec), list(cvec)), sig, idx))
+        if not kequal(e.param, kexp):
+            viols.append(core.violation("const_mismatch", "after %s: constant %s expected %s (vector %s)" % (opname, e.param, kexp, list(cvec)), sig, idx))
             bad = True
         return not bad
 
     def check_untouched(idx, opname, exclude=()):
-        for pid, (obj, cvec, snap) in pool.items():
+        for pid, (obj, cvec, snap, _k) in pool.items():
             if pid in exclude:
                 continue
             now = _snap(obj)
@@ -263,21 +281,26 @@ def execute(case):
         if kind == "scale":
             n = _mk_n(op["n"], op["ntype"])
             res_vec = model.scale(A[1], op["n"])
+            res_k = kpow(A[3], op["n"])
             fn = (lambda: n * A[0]) if op["side"] == "l" else (lambda: A[0] * n)
         elif kind == "neg":
             res_vec = model.scale(A[1], -1)
+            res_k = kpow(A[3], -1)
             fn = lambda: -A[0]
         elif kind == "add":
             res_vec = model.add(A[1], B[1])
+            res_k = A[3] * B[3]
             netted = True
             fn = lambda: A[0] + B[0]
         elif kind == "sub":
             res_vec = model.add(A[1], model.scale(B[1], -1))
+            res_k = A[3] * kpow(B[3], -1)
             netted = True
             fn = lambda: A[0] - B[0]
         elif kind == "combo":
             inter = model.add(model.scale(A[1], op["n"]), model.scale(B[1], op["m"]))
             res_vec = model.add(inter, model.scale(C[1], -1))
+            res_k = kpow(A[3], op["n"]) * kpow(B[3], op["m"]) * kpow(C[3], -1)
             netted = True
             fn = lambda: op["n"] * A[0] + op["m"] * B[0] - C[0]
             if not model.net(inter):  # the intermediate sum has no net effect: refusal is legitimate
@@ -309,11 +332,11 @@ def execute(case):
                 rec["outcome"] = "returned:" + type(out).__name__
                 hist.append(rec)
                 continue
-            ok = check_obj(out, res_vec, kind, idx, netted)
+            ok = check_obj(out, res_vec, kind, idx, netted, kexp=res_k)
             check_untouched(idx, kind)
             rec["outcome"] = "ok" if ok else "bad"
             rec["result"] = _show(out)
-            pool[rid] = [out, res_vec, _snap(out)]
+            pool[rid] = [out, res_vec, _snap(out), res_k]
             depth = sum(1 for x in res_vec if x)
             states.add((kind, "ok", min(depth, 4), min(max(abs(x) for x in res_vec), 6), len(out.reac) + len(out.prod),
                         bool(set(model.net(A[1])) & set(model.net(B[1]))) if B else False))
@@ -373,7 +396,8 @@ def execute(case):
                 check_untouched(idx, kind)
                 hist.append(rec)
                 continue
-            ok = check_obj(out, res_vec, "eliminate_combine", idx, True)
+            res_k = kpow(A[3], m1) * kpow(B[3], m2)
+            ok = check_obj(out, res_vec, "eliminate_combine", idx, True, kexp=res_k)
             if key in out.reac or key in out.prod:
                 viols.append(core.violation("eliminate_wrong", "combination still contains %s" % key, sig, idx))
                 ok = False
@@ -381,7 +405,56 @@ def execute(case):
             rec["outcome"] = "ok" if ok else "bad"
             rec["result"] = _show(out)
             if max(abs(x) for x in res_vec) <= CBOUND:
-                pool[rid] = [out, res_vec, _snap(out)]
+                pool[rid] = [out, res_vec, _snap(out), res_k]
+            hist.append(rec)
+            continue
+        if kind == "set_param":
+            # the user assigns a new constant to a live object (objects are mutable): later expressions must use it,
+            # earlier results must keep theirs
+            if ck == "symbol":
+                import sympy
+
+                newk = sympy.Symbol("Q%d" % op["prime"], positive=True)
+            elif ck == "sympy_rational":
+                import sympy
+
+                newk = sympy.Integer(op["prime"])
+            else:
+                newk = Fraction(op["prime"])
+            A[0].param = newk
+            A[3] = newk
+            A[2] = _snap(A[0])
+            check_untouched(idx, kind)
+            rec["outcome"] = "ok"
+            bump("op:set_param")
+            states.add(("set_param", "ok", op["a"].startswith("b")))
+            hist.append(rec)
+            continue
+        if kind == "as_reactions" and op.get("units"):
+            from chempy.units import default_units as u, to_unitless
+
+            e = A[0]
+            nf, nb = sum(e.reac.values()), sum(e.prod.values())
+            kfloat = float(to_fraction(e.param))
+            ef = Equilibrium(dict(e.reac), dict(e.prod), kfloat)
+            which = op["which"]
+            order = nf if which == "kf" else nb
+            given = float(op["val"]) * u.molar ** (1 - order) / u.s
+            try:
+                fw, bw = ef.as_reactions(units=u, **{which: given})
+                ratio = to_unitless(fw.param / bw.param / (kfloat * u.molar ** (nb - nf)))
+                okk = abs(float(ratio) - 1.0) <= 1e-12
+            except Exception as ex:
+                rec["outcome"] = "raise:" + core.exc_tag(ex)
+                viols.append(core.violation("as_reactions_refused", "as_reactions(%s=<quantity>, units=...) raised %s (nf=%d nb=%d)" % (which, core.exc_tag(ex), nf, nb), {"op": "as_reactions", "units": True, "exc": core.exc_tag(ex)}, idx))
+                hist.append(rec)
+                continue
+            if not okk:
+                viols.append(core.violation("as_reactions_wrong", "with units: kf/kb / (K c0^dn) = %r" % float(ratio), {"op": "as_reactions", "which": which, "units": True}, idx))
+            check_untouched(idx, kind)
+            rec["outcome"] = "ok" if okk else "bad"
+            states.add(("as_reactions", which, "units", nb - nf != 0))
+            bump("op:as_reactions_units")
             hist.append(rec)
             continue
         if kind == "as_reactions":
@@ -447,8 +520,8 @@ def execute(case):
         raise core.HarnessError("unknown op %r" % kind)
 
     # final sweep: every live object still conforms to its model vector (catches late aliasing)
-    for pid, (obj, cvec, snap) in pool.items():
-        check_obj(obj, cvec, "final_sweep", None, False, {"late": True})
+    for pid, (obj, cvec, snap, kexp) in pool.items():
+        check_obj(obj, cvec, "final_sweep", None, False, {"late": True}, kexp=kexp)
     bump("live_objects", len(pool))
     return {"history": hist, "violations": _dedup(viols), "stats": stats, "states": sorted(states, key=repr)}
 
